@@ -266,6 +266,9 @@ where
             }
         };
 
+        #[cfg(feature = "verif_hooks")]
+        crate::verif_hooks::pause("publish:before-commit").await;
+
         // Commit the transaction
         info!("Committing transaction");
         match self.storage.commit_transaction().await {
